@@ -477,6 +477,14 @@ namespace vm
       }
     return changed;
   }
+  template<class Mesh_> bool distinct_vertices(const Mesh_& m)
+  {
+    std::vector<std::vector<double>> pts;
+    const auto& vs = m.get_vertex_set();
+    for(Index i(0); i < vs.get_num_vertices(); ++i) { std::vector<double> pt; for(int k(0); k < Mesh_::world_dim; ++k) pt.push_back(double(vs[i][k])); pts.push_back(pt); }
+    std::sort(pts.begin(), pts.end());
+    return std::adjacent_find(pts.begin(), pts.end()) == pts.end();
+  }
   template<class Mesh_> double max_abs_coord(const Mesh_& m)
   {
     const auto& vs = m.get_vertex_set(); double r = 0;
